@@ -288,7 +288,12 @@ def wellformed(A):
                        abs(ehi - bhi) > 1e-9 * max(1.0, abs(ehi)) + 1e-6 * abs(dx) + slack:
                         why.append("L%d box %d dim %d bounds (%r,%r) vs idx (%r,%r)"
                                    % (lv, b, d, blo, bhi, elo, ehi))
+        referenced = {fn for fn, _ in C["fod"]}
         for fn, segs in C["files"].items():
+            if fn not in referenced:
+                # a file that no box of the level header refers to (left behind by an earlier, larger plotfile written to the
+                # same directory): not part of the plotfile
+                continue
             for s in segs:
                 if s["k"] == "junk":
                     why.append("L%d %s: %d junk bytes at %d" % (lv, fn, s["n"], s["off"]))
